@@ -192,14 +192,17 @@ def random_table(seed: int, i: int):
     p = float(rng.uniform(1, 100)) + np.cumsum(np.exp(rng.uniform(np.log(0.1), np.log(500), n)))
     mu = np.exp(rng.uniform(np.log(0.005), np.log(5), n))
     z = rng.uniform(0.2, 3.0, n)
-    return p, mu, z
+    return p, mu, z, bool(i % 3 == 1)
 
 
 def alone_sweep(tab):
     env.import_bluebonnet()
     from bluebonnet.fluids import pseudopressure  # noqa: PLC0415
 
-    p, mu, z = (np.asarray(a, dtype=float) for a in tab)
+    p, mu, z = (np.asarray(a, dtype=float) for a in tab[:3])
+    descending = len(tab) > 3 and bool(tab[3])
+    if descending:   # a table listed from high to low pressure is a table with positive entries too
+        p, mu, z = p[::-1].copy(), mu[::-1].copy(), z[::-1].copy()
     n = len(p)
     m = np.asarray(pseudopressure(p, mu, z), dtype=float)
     fp = [Fraction(float(x)) for x in p]
@@ -212,16 +215,19 @@ def alone_sweep(tab):
     pts = []
     for k in range(n):
         agree = {"exact": 0 if Fraction(float(m[k])) == ref[k] else quant.e15_of(float(abs(Fraction(float(m[k])) - ref[k])
-                                                                                  / max(ref[k], Fraction(1, 10**300))))}
+                                                                                  / max(abs(ref[k]), Fraction(1, 10**300))))}
         raw = {"row": k, "p": float(p[k]), "m": float(m[k]), "exact": float(ref[k])}
         if k >= b:
             agree["rebase"] = rel15(float(sub[k - b]), m[k] - m[b], scale=max(abs(m[k]), abs(float(sub[k - b]))))
             raw["rebased_at_row"] = b
         pts.append({"x": quant.q(p[k], 0.0, 1.0e5), "side": "none",
-                    "vals": {"m_norm": quant.q(m[k] / m[-1] if m[-1] > 0 else float("nan"), 0.0, 1.0)},
+                    "vals": {"m_norm": quant.q(m[k] / abs(m[-1]) if m[-1] != 0 else float("nan"), 0.0, 1.0)},
                     "agree": agree, "flags": {"zero_first_alone": m[0] == 0.0, "finite": bool(np.isfinite(m[k]))},
                     "raw": raw})
-    meta = {"what": f"random table with {n} rows, p {p[0]:.4g}..{p[-1]:.6g}", "table": [p.tolist(), mu.tolist(), z.tolist()]}
+    if descending:   # points are judged in order of increasing pressure: m must increase with pressure either way
+        pts.reverse()
+    meta = {"what": f"random {'descending ' if descending else ''}table with {n} rows, p {p[0]:.4g}..{p[-1]:.6g}",
+            "table": [p.tolist(), mu.tolist(), z.tolist()]}
     return [{"profile": "alone", "meta": meta, "points": pts}]
 
 
